@@ -1,7 +1,9 @@
 package transports
 
 import (
+	"sync"
 	"sync/atomic"
+	"time"
 
 	"github.com/zishang520/engine.io-go-parser/packet"
 	"github.com/zishang520/engine.io-go-parser/parser"
@@ -214,3 +216,66 @@ func (t *transport) DoClose(types.Callable) {}
 
 // Nothing to start: the base transport reads nothing on its own.
 func (t *transport) Start() {}
+
+// How long an orderly close waits for a batch that is still being written.
+const writeDrainTimeout = 30 * time.Second
+
+// sendTracker counts the batches that Send has handed to a writer goroutine
+// and that the goroutine has not finished writing yet.
+type sendTracker struct {
+	mu   sync.Mutex
+	n    int
+	idle chan struct{}
+}
+
+func (t *sendTracker) begin() {
+	t.mu.Lock()
+	t.n++
+	t.mu.Unlock()
+}
+
+func (t *sendTracker) end() {
+	t.mu.Lock()
+	t.n--
+	if t.n == 0 && t.idle != nil {
+		close(t.idle)
+		t.idle = nil
+	}
+	t.mu.Unlock()
+}
+
+// done returns a channel that is closed once nothing is in flight.
+func (t *sendTracker) done() <-chan struct{} {
+	t.mu.Lock()
+	defer t.mu.Unlock()
+	if t.n == 0 {
+		ch := make(chan struct{})
+		close(ch)
+		return ch
+	}
+	if t.idle == nil {
+		t.idle = make(chan struct{})
+	}
+	return t.idle
+}
+
+// closeAfter closes a connection once the writer is idle: at once when it
+// already is, otherwise when the batch in flight has been written — or after
+// writeDrainTimeout, so that a peer that does not read cannot keep the
+// connection.
+func closeAfter(idle <-chan struct{}, closeConn func()) {
+	select {
+	case <-idle:
+		closeConn()
+	default:
+		go func() {
+			timer := time.NewTimer(writeDrainTimeout)
+			defer timer.Stop()
+			select {
+			case <-idle:
+			case <-timer.C:
+			}
+			closeConn()
+		}()
+	}
+}
